@@ -326,6 +326,9 @@ func (m *model) expect(op Op, arrivalScopeLocal bool) expectation {
 	if mv == "faces/query" {
 		return expectation{kind: expIgnore, class: "faces/query", probeFace: -1}
 	}
+	if op.Form == "announce" {
+		return noeffect("unknown:rib/announce-with-application-parameters")
+	}
 	if !controlVerbs[mv] {
 		return noeffect("unknown:verb-or-module")
 	}
